@@ -22,6 +22,10 @@ def joinTarget (s : State) (idx : Nat) (e : Option Exc) : MPc :=
   | some h => .joinHasherChk h idx e
   | none => .joinJanitorChk e
 
+theorem joinTarget_cases (s : State) (idx : Nat) (e : Option Exc) :
+    (∃ h, joinTarget s idx e = .joinHasherChk h idx e) ∨ joinTarget s idx e = .joinJanitorChk e := by
+  unfold joinTarget; split <;> simp
+
 def resultOf (s : State) (e : Option Exc) : Result :=
   match e with
   | some x => .raised x
